@@ -1,11 +1,929 @@
+// C11 harness: ds.Set / orderedmap.OrderedMap / ds.SetArithmetic.
+//
+//	hx-c11 hist --n N --len L   lockstep histories (all methods, diffs, orders, codec) -> cases.v + Go reference oracle
+//	hx-c11 conc --runs R        directed lock schedules, free-running method pairs under a watchdog,
+//	                            linearizability of Add/Delete/Has, atomicity of Apply/Compute/Replace (Go oracles only)
 package main
 
 import (
+	"flag"
 	"fmt"
-	"time"
+	"os"
+	"strings"
+
+	"github.com/iotaledger/hive.go/ds"
+	"github.com/iotaledger/hive.go/ds/orderedmap"
+	"github.com/iotaledger/hive.go/serializer/v2/serix"
+
+	"verif/harness/vx"
 )
 
+type op struct {
+	K string   `json:"k"`
+	E uint32   `json:"e,omitempty"`
+	V uint32   `json:"v,omitempty"`
+	L []uint32 `json:"l,omitempty"`
+	D []uint32 `json:"d,omitempty"`
+	N int      `json:"n,omitempty"`
+	F string   `json:"f,omitempty"`
+	B []byte   `json:"b,omitempty"`
+}
+
+func nl(l []uint32) string { return vx.ListOf(l, func(x uint32) string { return vx.N(uint64(x)) }) }
+func bl(b []byte) string   { return vx.ListOf(b, func(x byte) string { return vx.N(uint64(x)) }) }
+
+// factory / predicate as Coq terms
+func (o op) fun() string {
+	switch o.F {
+	case "const":
+		return "(f_const " + nl(o.L) + " " + nl(o.D) + ")"
+	case "toggle":
+		return "(f_toggle " + vx.N(uint64(o.E)) + ")"
+	case "compl":
+		return "(f_compl " + nl(o.L) + ")"
+	case "lt":
+		return "(p_lt " + vx.N(uint64(o.E)) + ")"
+	case "even":
+		return "p_even"
+	case "in":
+		return "(p_in " + nl(o.L) + ")"
+	}
+	panic("fun " + o.F)
+}
+
+func (o op) coq() string {
+	e := vx.N(uint64(o.E))
+	switch o.K {
+	case "Add", "Delete", "Has", "Is", "Get", "MDelete":
+		return "O" + o.K + " " + e
+	case "AddAll", "DeleteAll", "Replace", "HasAll", "Equals", "Intersect":
+		return "O" + o.K + " " + nl(o.L)
+	case "Apply":
+		return "OApply " + nl(o.L) + " " + nl(o.D)
+	case "Compute", "Filter":
+		return "O" + o.K + " " + o.fun()
+	case "ForEach", "Pairs", "RevPairs":
+		return "O" + o.K + " " + vx.Nat(o.N)
+	case "Decode":
+		return "ODecode " + bl(o.B)
+	case "Set":
+		return "OSet " + e + " " + vx.N(uint64(o.V))
+	}
+	return "O" + o.K // Clear Any Clone Size IsEmpty ToSlice Encode Head Tail MClone
+}
+
+func contains(l []uint32, e uint32) bool {
+	for _, x := range l {
+		if x == e {
+			return true
+		}
+	}
+	return false
+}
+
+func dedup(l []uint32) []uint32 {
+	r := []uint32{}
+	for _, x := range l {
+		if !contains(r, x) {
+			r = append(r, x)
+		}
+	}
+	return r
+}
+
+func eqSlice(a, b []uint32) bool {
+	if len(a) != len(b) {
+		return false
+	}
+	for i := range a {
+		if a[i] != b[i] {
+			return false
+		}
+	}
+	return true
+}
+
+func mutsOf(a, d []uint32) ds.SetMutations[uint32] {
+	return ds.NewSetMutations[uint32]().WithAddedElements(ds.NewSet(a...)).WithDeletedElements(ds.NewSet(d...))
+}
+
+// factory semantics in Go (applied to the read-only view handed to Compute)
+func (o op) factory() func(ds.ReadableSet[uint32]) ds.SetMutations[uint32] {
+	return func(v ds.ReadableSet[uint32]) ds.SetMutations[uint32] {
+		switch o.F {
+		case "const":
+			return mutsOf(o.L, o.D)
+		case "toggle":
+			if v.Has(o.E) {
+				return mutsOf(nil, []uint32{o.E})
+			}
+			return mutsOf([]uint32{o.E}, nil)
+		default: // compl
+			add := []uint32{}
+			for _, x := range o.L {
+				if !v.Has(x) {
+					add = append(add, x)
+				}
+			}
+			return mutsOf(add, v.ToSlice())
+		}
+	}
+}
+
+func (o op) pred() func(uint32) bool {
+	switch o.F {
+	case "lt":
+		return func(e uint32) bool { return e < o.E }
+	case "even":
+		return func(e uint32) bool { return e%2 == 0 }
+	}
+	return func(e uint32) bool { return contains(o.L, e) }
+}
+
+func visitTerm(l []uint32, b bool) string { return "RVisit " + nl(l) + " " + vx.Bool(b) }
+
+type pair struct{ k, v uint32 }
+
+func pairsTerm(l []pair) string {
+	return vx.ListOf(l, func(p pair) string { return vx.Pair(vx.N(uint64(p.k)), vx.N(uint64(p.v))) })
+}
+
+func optN(ok bool, v uint32) string { return vx.Opt(ok, vx.N(uint64(v))) }
+
+func u32le(x uint32) []byte { return []byte{byte(x), byte(x >> 8), byte(x >> 16), byte(x >> 24)} }
+
+// ---------------------------------------------------------------------------------------------------------------
+// reference set: the property's own definition (duplicate-free slice in first-insertion order), independent of Coq
+// ---------------------------------------------------------------------------------------------------------------
+
+type ref struct{ l []uint32 }
+
+func (r *ref) add(e uint32) bool {
+	if contains(r.l, e) {
+		return false
+	}
+	r.l = append(r.l, e)
+	return true
+}
+
+func (r *ref) del(e uint32) bool {
+	for i, x := range r.l {
+		if x == e {
+			r.l = append(append([]uint32{}, r.l[:i]...), r.l[i+1:]...)
+			return true
+		}
+	}
+	return false
+}
+
+// expected result of a Set operation per the mathematical definition, as a Coq term of type out
+func (r *ref) expect(o op) string {
+	switch o.K {
+	case "Add":
+		return "RBool " + vx.Bool(r.add(o.E))
+	case "Delete":
+		return "RBool " + vx.Bool(r.del(o.E))
+	case "Has":
+		return "RBool " + vx.Bool(contains(r.l, o.E))
+	case "AddAll":
+		added := []uint32{}
+		for _, e := range o.L {
+			if r.add(e) {
+				added = append(added, e)
+			}
+		}
+		return "RList " + nl(added)
+	case "DeleteAll":
+		rem := []uint32{}
+		for _, e := range o.L {
+			if r.del(e) {
+				rem = append(rem, e)
+			}
+		}
+		return "RList " + nl(rem)
+	case "Apply", "Compute":
+		a, d := o.L, o.D
+		if o.K == "Compute" {
+			switch o.F {
+			case "toggle":
+				if contains(r.l, o.E) {
+					a, d = nil, []uint32{o.E}
+				} else {
+					a, d = []uint32{o.E}, nil
+				}
+			case "compl":
+				a = []uint32{}
+				for _, x := range o.L {
+					if !contains(r.l, x) {
+						a = append(a, x)
+					}
+				}
+				d = append([]uint32{}, r.l...)
+			}
+		}
+		added, rem := []uint32{}, []uint32{}
+		for _, e := range a {
+			if r.add(e) {
+				added = append(added, e)
+			}
+		}
+		for _, e := range d {
+			if r.del(e) {
+				rem = append(rem, e)
+			}
+		}
+		return "RMut " + nl(added) + " " + nl(rem)
+	case "Replace":
+		prev := r.l
+		r.l = dedup(o.L)
+		rem := []uint32{}
+		for _, p := range prev {
+			if !contains(r.l, p) {
+				rem = append(rem, p)
+			}
+		}
+		return "RList " + nl(rem)
+	case "Clear":
+		r.l = []uint32{}
+		return "RUnit"
+	case "HasAll":
+		ok := true
+		for _, e := range o.L {
+			ok = ok && contains(r.l, e)
+		}
+		return "RBool " + vx.Bool(ok)
+	case "Equals":
+		ok := len(o.L) == len(r.l)
+		for _, e := range o.L {
+			ok = ok && contains(r.l, e)
+		}
+		return "RBool " + vx.Bool(ok)
+	case "Intersect", "Filter":
+		p := o.pred()
+		if o.K == "Intersect" {
+			p = func(e uint32) bool { return contains(o.L, e) }
+		}
+		res := []uint32{}
+		for _, e := range r.l {
+			if p(e) {
+				res = append(res, e)
+			}
+		}
+		return "RList " + nl(res)
+	case "Any":
+		if len(r.l) == 0 {
+			return "ROpt None"
+		}
+		return "ROpt " + optN(true, r.l[0])
+	case "Is":
+		return "RBool " + vx.Bool(len(r.l) == 1 && r.l[0] == o.E)
+	case "Clone", "ToSlice":
+		return "RList " + nl(r.l)
+	case "Size":
+		return "RNat " + vx.Nat(len(r.l))
+	case "IsEmpty":
+		return "RBool " + vx.Bool(len(r.l) == 0)
+	case "ForEach":
+		if o.N > 0 && o.N <= len(r.l) {
+			return visitTerm(r.l[:o.N], false)
+		}
+		return visitTerm(r.l, true)
+	case "Encode":
+		b := u32le(uint32(len(r.l)))
+		for _, e := range r.l {
+			b = append(b, u32le(e)...)
+		}
+		return "RBytes " + bl(b)
+	case "Decode":
+		b := o.B
+		if len(b) < 4 {
+			return "RDec None"
+		}
+		n := uint32(b[0]) | uint32(b[1])<<8 | uint32(b[2])<<16 | uint32(b[3])<<24
+		pos := 4
+		for i := uint32(0); i < n; i++ {
+			if len(b)-pos < 4 {
+				return "RDec None"
+			}
+			r.add(uint32(b[pos]) | uint32(b[pos+1])<<8 | uint32(b[pos+2])<<16 | uint32(b[pos+3])<<24)
+			pos += 4
+		}
+		return "RDec (Some " + vx.Nat(pos) + ")"
+	}
+	panic("expect " + o.K)
+}
+
+// ---------------------------------------------------------------------------------------------------------------
+// real code
+// ---------------------------------------------------------------------------------------------------------------
+
+func runSetOp(s ds.Set[uint32], o op) (res string) {
+	defer func() {
+		if r := recover(); r != nil {
+			res = "RUnit (* panic: " + strings.ReplaceAll(fmt.Sprint(r), "*)", "") + " *)"
+			if o.K == "Clear" {
+				res = "RBool false (* panic *)"
+			}
+		}
+	}()
+	switch o.K {
+	case "Add":
+		return "RBool " + vx.Bool(s.Add(o.E))
+	case "Delete":
+		return "RBool " + vx.Bool(s.Delete(o.E))
+	case "Has":
+		return "RBool " + vx.Bool(s.Has(o.E))
+	case "AddAll":
+		return "RList " + nl(s.AddAll(ds.NewSet(o.L...)).ToSlice())
+	case "DeleteAll":
+		return "RList " + nl(s.DeleteAll(ds.NewSet(o.L...)).ToSlice())
+	case "Apply":
+		m := s.Apply(mutsOf(o.L, o.D))
+		return "RMut " + nl(m.AddedElements().ToSlice()) + " " + nl(m.DeletedElements().ToSlice())
+	case "Compute":
+		m := s.Compute(o.factory())
+		return "RMut " + nl(m.AddedElements().ToSlice()) + " " + nl(m.DeletedElements().ToSlice())
+	case "Replace":
+		return "RList " + nl(s.Replace(ds.NewSet(o.L...)).ToSlice())
+	case "Clear":
+		s.Clear()
+		return "RUnit"
+	case "HasAll":
+		return "RBool " + vx.Bool(s.HasAll(ds.NewSet(o.L...)))
+	case "Equals":
+		return "RBool " + vx.Bool(s.Equals(ds.NewSet(o.L...)))
+	case "Intersect":
+		return "RList " + nl(s.Intersect(ds.NewSet(o.L...)).ToSlice())
+	case "Filter":
+		return "RList " + nl(s.Filter(o.pred()).ToSlice())
+	case "Any":
+		e, ok := s.Any()
+		return "ROpt " + optN(ok, e)
+	case "Is":
+		return "RBool " + vx.Bool(s.Is(o.E))
+	case "Clone":
+		return "RList " + nl(s.Clone().ToSlice())
+	case "Size":
+		return "RNat " + vx.Nat(s.Size())
+	case "IsEmpty":
+		return "RBool " + vx.Bool(s.IsEmpty())
+	case "ToSlice":
+		return "RList " + nl(s.ToSlice())
+	case "ForEach":
+		seen := []uint32{}
+		err := s.ForEach(func(e uint32) error {
+			seen = append(seen, e)
+			if len(seen) == o.N {
+				return fmt.Errorf("stop")
+			}
+			return nil
+		})
+		return visitTerm(seen, err == nil)
+	case "Encode":
+		b, err := s.Encode(serix.DefaultAPI)
+		if err != nil {
+			return "RUnit (* encode error *)"
+		}
+		return "RBytes " + bl(b)
+	case "Decode":
+		n, err := s.Decode(serix.DefaultAPI, o.B)
+		if err != nil {
+			if n != 0 {
+				return "RUnit (* error with bytesRead != 0 *)"
+			}
+			return "RDec None"
+		}
+		return "RDec (Some " + vx.Nat(n) + ")"
+	}
+	panic("runSetOp " + o.K)
+}
+
+func mapPairs(m *orderedmap.OrderedMap[uint32, uint32]) []pair {
+	r := []pair{}
+	m.ForEach(func(k, v uint32) bool { r = append(r, pair{k, v}); return true })
+	return r
+}
+
+func runMapOp(m *orderedmap.OrderedMap[uint32, uint32], o op) string {
+	optP := func(k, v uint32, ok bool) string {
+		return "ROptP " + vx.Opt(ok, vx.Pair(vx.N(uint64(k)), vx.N(uint64(v))))
+	}
+	switch o.K {
+	case "Set":
+		p, ok := m.Set(o.E, o.V)
+		return "ROpt " + optN(ok, p)
+	case "Get":
+		v, ok := m.Get(o.E)
+		return "ROpt " + optN(ok, v)
+	case "Has":
+		return "RBool " + vx.Bool(m.Has(o.E))
+	case "MDelete":
+		return "RBool " + vx.Bool(m.Delete(o.E))
+	case "Head":
+		return optP(m.Head())
+	case "Tail":
+		return optP(m.Tail())
+	case "Pairs", "RevPairs":
+		seen := []pair{}
+		f := func(k, v uint32) bool { seen = append(seen, pair{k, v}); return len(seen) != o.N }
+		var b bool
+		if o.K == "Pairs" {
+			b = m.ForEach(f)
+		} else {
+			b = m.ForEachReverse(f)
+		}
+		return "RPairs " + pairsTerm(seen) + " " + vx.Bool(b)
+	case "MClone":
+		return "RPairs " + pairsTerm(mapPairs(m.Clone())) + " true"
+	case "Clear":
+		m.Clear()
+		return "RUnit"
+	case "Size":
+		return "RNat " + vx.Nat(m.Size())
+	case "IsEmpty":
+		return "RBool " + vx.Bool(m.IsEmpty())
+	}
+	panic("runMapOp " + o.K)
+}
+
+// reference ordered map
+type refMap struct{ l []pair }
+
+func (r *refMap) idx(k uint32) int {
+	for i, p := range r.l {
+		if p.k == k {
+			return i
+		}
+	}
+	return -1
+}
+
+func (r *refMap) expect(o op) string {
+	optP := func(ok bool, p pair) string {
+		return "ROptP " + vx.Opt(ok, vx.Pair(vx.N(uint64(p.k)), vx.N(uint64(p.v))))
+	}
+	switch o.K {
+	case "Set":
+		if i := r.idx(o.E); i >= 0 {
+			old := r.l[i].v
+			r.l[i].v = o.V
+			return "ROpt " + optN(true, old)
+		}
+		r.l = append(r.l, pair{o.E, o.V})
+		return "ROpt None"
+	case "Get":
+		if i := r.idx(o.E); i >= 0 {
+			return "ROpt " + optN(true, r.l[i].v)
+		}
+		return "ROpt None"
+	case "Has":
+		return "RBool " + vx.Bool(r.idx(o.E) >= 0)
+	case "MDelete":
+		if i := r.idx(o.E); i >= 0 {
+			r.l = append(append([]pair{}, r.l[:i]...), r.l[i+1:]...)
+			return "RBool true"
+		}
+		return "RBool false"
+	case "Head":
+		if len(r.l) == 0 {
+			return optP(false, pair{})
+		}
+		return optP(true, r.l[0])
+	case "Tail":
+		if len(r.l) == 0 {
+			return optP(false, pair{})
+		}
+		return optP(true, r.l[len(r.l)-1])
+	case "Pairs", "RevPairs":
+		l := append([]pair{}, r.l...)
+		if o.K == "RevPairs" {
+			for i, j := 0, len(l)-1; i < j; i, j = i+1, j-1 {
+				l[i], l[j] = l[j], l[i]
+			}
+		}
+		if o.N > 0 && o.N <= len(l) {
+			return "RPairs " + pairsTerm(l[:o.N]) + " false"
+		}
+		return "RPairs " + pairsTerm(l) + " true"
+	case "MClone":
+		return "RPairs " + pairsTerm(r.l) + " true"
+	case "Clear":
+		r.l = nil
+		return "RUnit"
+	case "Size":
+		return "RNat " + vx.Nat(len(r.l))
+	case "IsEmpty":
+		return "RBool " + vx.Bool(len(r.l) == 0)
+	}
+	panic("refMap " + o.K)
+}
+
+// ---------------------------------------------------------------------------------------------------------------
+// generators
+// ---------------------------------------------------------------------------------------------------------------
+
+var pool = []uint32{0, 1, 2, 3, 4, 5, 7, 255, 256, 65536, 1 << 31, ^uint32(0)}
+
+func universe(r *vx.Rng) []uint32 {
+	n := 2 + r.Intn(5) // 2..6 elements
+	u := []uint32{}
+	for len(u) < n {
+		x := vx.Pick(r, pool)
+		if r.Chance(2, 3) {
+			x = uint32(r.Intn(6))
+		}
+		if !contains(u, x) {
+			u = append(u, x)
+		}
+	}
+	return u
+}
+
+// sub: a random list over u (may repeat: NewSet deduplicates), length 0..len(u)+1
+func sub(r *vx.Rng, u []uint32) []uint32 {
+	n := r.Intn(len(u) + 2)
+	l := []uint32{}
+	for i := 0; i < n; i++ {
+		l = append(l, vx.Pick(r, u))
+	}
+	return l
+}
+
+func encodeList(l []uint32, count uint32) []byte {
+	b := u32le(count)
+	for _, e := range l {
+		b = append(b, u32le(e)...)
+	}
+	return b
+}
+
+func genDecode(r *vx.Rng, u []uint32) []byte {
+	l := sub(r, u)
+	b := encodeList(l, uint32(len(l)))
+	switch r.Intn(10) {
+	case 0: // truncated
+		if len(b) > 0 {
+			b = b[:r.Intn(len(b))]
+		}
+	case 1: // count larger than the entries present
+		b = encodeList(l, uint32(len(l)+1+r.Intn(3)))
+	case 2: // trailing bytes / count smaller
+		b = append(b, byte(r.Intn(256)), byte(r.Intn(256)))
+	case 3:
+		if len(l) > 0 {
+			b = encodeList(l, uint32(len(l)-1))
+		}
+	case 4:
+		b = []byte{}
+	}
+	return b
+}
+
+func genSetOp(r *vx.Rng, u []uint32) op {
+	e := vx.Pick(r, u)
+	k := r.Intn(100)
+	switch {
+	case k < 12:
+		return op{K: "Add", E: e}
+	case k < 22:
+		return op{K: "Delete", E: e}
+	case k < 26:
+		return op{K: "Has", E: e}
+	case k < 33:
+		return op{K: "AddAll", L: dedup(sub(r, u))}
+	case k < 40:
+		return op{K: "DeleteAll", L: dedup(sub(r, u))}
+	case k < 48:
+		return op{K: "Apply", L: dedup(sub(r, u)), D: dedup(sub(r, u))}
+	case k < 55:
+		switch r.Intn(3) {
+		case 0:
+			return op{K: "Compute", F: "const", L: dedup(sub(r, u)), D: dedup(sub(r, u))}
+		case 1:
+			return op{K: "Compute", F: "toggle", E: e}
+		}
+		return op{K: "Compute", F: "compl", L: u}
+	case k < 62:
+		return op{K: "Replace", L: dedup(sub(r, u))}
+	case k < 64:
+		return op{K: "Clear"}
+	case k < 68:
+		return op{K: "HasAll", L: dedup(sub(r, u))}
+	case k < 73:
+		l := dedup(sub(r, u))
+		return op{K: "Equals", L: l}
+	case k < 77:
+		return op{K: "Intersect", L: dedup(sub(r, u))}
+	case k < 80:
+		switch r.Intn(3) {
+		case 0:
+			return op{K: "Filter", F: "lt", E: e}
+		case 1:
+			return op{K: "Filter", F: "even"}
+		}
+		return op{K: "Filter", F: "in", L: dedup(sub(r, u))}
+	case k < 82:
+		return op{K: "Any"}
+	case k < 85:
+		return op{K: "Is", E: e}
+	case k < 87:
+		return op{K: "Clone"}
+	case k < 89:
+		return op{K: "Size"}
+	case k < 90:
+		return op{K: "IsEmpty"}
+	case k < 92:
+		return op{K: "ToSlice"}
+	case k < 95:
+		return op{K: "ForEach", N: r.Intn(len(u) + 1)}
+	case k < 97:
+		return op{K: "Encode"}
+	}
+	return op{K: "Decode", B: genDecode(r, u)}
+}
+
+func genMapOp(r *vx.Rng, u []uint32) op {
+	e := vx.Pick(r, u)
+	k := r.Intn(100)
+	switch {
+	case k < 30:
+		return op{K: "Set", E: e, V: uint32(r.Intn(4))}
+	case k < 40:
+		return op{K: "Get", E: e}
+	case k < 45:
+		return op{K: "Has", E: e}
+	case k < 65:
+		return op{K: "MDelete", E: e}
+	case k < 70:
+		return op{K: "Head"}
+	case k < 75:
+		return op{K: "Tail"}
+	case k < 81:
+		return op{K: "Pairs", N: r.Intn(len(u) + 1)}
+	case k < 89:
+		return op{K: "RevPairs", N: r.Intn(len(u) + 1)}
+	case k < 93:
+		return op{K: "MClone"}
+	case k < 95:
+		return op{K: "Clear"}
+	case k < 98:
+		return op{K: "Size"}
+	}
+	return op{K: "IsEmpty"}
+}
+
+// ---------------------------------------------------------------------------------------------------------------
+// cases
+// ---------------------------------------------------------------------------------------------------------------
+
+func obsTerm(out string, pairs []pair, size int) string {
+	return "mkObs (" + out + ") " + pairsTerm(pairs) + " " + vx.Nat(size)
+}
+
+func setPairs(l []uint32) []pair {
+	p := make([]pair, len(l))
+	for i, e := range l {
+		p[i] = pair{e, 0}
+	}
+	return p
+}
+
+func emitSet(cf *vx.CasesFile, st *vx.Stats, init []uint32, h []op, tag string) {
+	s := ds.NewSet(init...)
+	r := &ref{l: dedup(init)}
+	obs := make([]string, len(h))
+	ops := make([]string, len(h))
+	mutating := 0
+	for i, o := range h {
+		before := append([]uint32{}, r.l...)
+		got := runSetOp(s, o)
+		want := r.expect(o)
+		now := s.ToSlice()
+		obs[i] = obsTerm(got, setPairs(now), s.Size())
+		ops[i] = o.coq()
+		st.Count("set:" + o.K)
+		if !eqSlice(before, r.l) {
+			mutating++
+		}
+		if got != want || !eqSlice(now, r.l) || s.Size() != len(r.l) {
+			st.Fail(map[string]any{"sig": "", "kind": "set", "init": init, "history": h[:i+1], "op": o, "got": got, "want": want, "contents": now, "want_contents": r.l})
+			break
+		}
+	}
+	cf.Add("CSet " + nl(init) + " " + vx.List(ops) + " " + vx.List(obs))
+	st.Case("S"+nl(init)+strings.Join(ops, ";"), mutating >= 2)
+	st.CaseIndex = append(st.CaseIndex, map[string]any{"tag": tag, "kind": "set", "init": init, "history": h})
+	st.Sample(map[string]any{"kind": "set", "init": init, "history": ops, "observed": obs}, 2)
+}
+
+func emitMap(cf *vx.CasesFile, st *vx.Stats, h []op, tag string) {
+	m := orderedmap.New[uint32, uint32]()
+	r := &refMap{}
+	obs := make([]string, len(h))
+	ops := make([]string, len(h))
+	mutating := 0
+	for i, o := range h {
+		n0 := fmt.Sprint(r.l)
+		got := runMapOp(m, o)
+		want := r.expect(o)
+		now := mapPairs(m)
+		obs[i] = obsTerm(got, now, m.Size())
+		ops[i] = o.coq()
+		st.Count("map:" + o.K)
+		if n0 != fmt.Sprint(r.l) {
+			mutating++
+		}
+		if got != want || fmt.Sprint(now) != fmt.Sprint(append([]pair{}, r.l...)) || m.Size() != len(r.l) {
+			st.Fail(map[string]any{"sig": "", "kind": "map", "history": h[:i+1], "op": o, "got": got, "want": want})
+			break
+		}
+	}
+	cf.Add("CMap " + vx.List(ops) + " " + vx.List(obs))
+	st.Case("M"+strings.Join(ops, ";"), mutating >= 2)
+	st.CaseIndex = append(st.CaseIndex, map[string]any{"tag": tag, "kind": "map", "history": h})
+	st.Sample(map[string]any{"kind": "map", "history": ops, "observed": obs}, 3)
+}
+
+type aop struct {
+	Sub bool     `json:"sub"`
+	A   []uint32 `json:"a"`
+	D   []uint32 `json:"d"`
+	Thr int      `json:"thr"`
+	Def bool     `json:"default_thr"`
+}
+
+func emitArith(cf *vx.CasesFile, st *vx.Stats, h []aop, tag string) {
+	ar := ds.NewSetArithmetic[uint32]()
+	cnt := map[uint32]int{}
+	ops := make([]string, len(h))
+	obs := make([]string, len(h))
+	crossings := 0
+	for i, o := range h {
+		var m ds.SetMutations[uint32]
+		thr := o.Thr
+		if o.Def {
+			thr = 1
+		}
+		args := []int{o.Thr}
+		if o.Def {
+			args = nil
+		}
+		if o.Sub {
+			m = ar.Subtract(mutsOf(o.A, o.D), args...)
+		} else {
+			m = ar.Add(mutsOf(o.A, o.D), args...)
+		}
+		ga, gd := m.AddedElements().ToSlice(), m.DeletedElements().ToSlice()
+		// oracle: exactly the elements whose (count >= thr) status changed in this call
+		old := map[uint32]int{}
+		touched := dedup(append(append([]uint32{}, o.A...), o.D...))
+		for _, e := range touched {
+			old[e] = cnt[e]
+		}
+		inc, dec := o.A, o.D
+		if o.Sub {
+			inc, dec = o.D, o.A
+		}
+		for _, e := range inc {
+			cnt[e]++
+		}
+		for _, e := range dec {
+			cnt[e]--
+		}
+		ok := true
+		for _, e := range touched {
+			up := old[e] < thr && cnt[e] >= thr
+			down := old[e] >= thr && cnt[e] < thr
+			if contains(ga, e) != up || contains(gd, e) != down {
+				ok = false
+			}
+		}
+		for _, e := range append(append([]uint32{}, ga...), gd...) {
+			if !contains(touched, e) {
+				ok = false
+			}
+		}
+		crossings += len(ga) + len(gd)
+		if !ok {
+			st.Fail(map[string]any{"sig": "", "kind": "arith", "history": h[:i+1], "added": ga, "deleted": gd})
+		}
+		name := "AAdd"
+		if o.Sub {
+			name = "ASub"
+		}
+		ops[i] = fmt.Sprintf("%s %s %s (%s)", name, nl(o.A), nl(o.D), vx.Z(int64(thr)))
+		obs[i] = "mkAObs " + nl(ga) + " " + nl(gd)
+		st.Count("arith:" + name)
+	}
+	cf.Add("CArith " + vx.List(ops) + " " + vx.List(obs))
+	st.Case("A"+strings.Join(ops, ";"), crossings >= 2)
+	st.CaseIndex = append(st.CaseIndex, map[string]any{"tag": tag, "kind": "arith", "history": h})
+	st.Sample(map[string]any{"kind": "arith", "history": ops, "observed": obs}, 4)
+}
+
+func genArith(r *vx.Rng, n int) []aop {
+	u := universe(r)
+	thrs := []int{1, 1, 2, 2, 3, 0, -1}
+	fixed := vx.Pick(r, thrs)
+	h := []aop{}
+	for i := 0; i < n; i++ {
+		o := aop{Sub: r.Chance(2, 5), A: dedup(sub(r, u)), D: dedup(sub(r, u)), Thr: fixed}
+		if r.Chance(1, 6) {
+			o.Thr = vx.Pick(r, thrs)
+		}
+		if o.Thr == 1 && r.Bool() {
+			o.Def = true
+		}
+		if r.Chance(3, 5) { // usual use: disjoint added/deleted
+			d := []uint32{}
+			for _, e := range o.D {
+				if !contains(o.A, e) {
+					d = append(d, e)
+				}
+			}
+			o.D = d
+		}
+		h = append(h, o)
+	}
+	return h
+}
+
+func directedSets() (inits [][]uint32, hs [][]op) {
+	add := func(init []uint32, h ...op) { inits = append(inits, init); hs = append(hs, h) }
+	// D11a (repaired): Replace returns the removed elements only
+	add([]uint32{1, 2}, op{K: "Replace", L: []uint32{2, 3}}, op{K: "ToSlice"})
+	// D11b (repaired) sequential part: DeleteAll reports exactly the deleted ones, in argument order
+	add([]uint32{1, 2, 3}, op{K: "DeleteAll", L: []uint32{3, 9, 1}}, op{K: "ToSlice"})
+	// re-insertion moves an element to the end; Any follows the order
+	add([]uint32{1, 2, 3}, op{K: "Delete", E: 1}, op{K: "Add", E: 1}, op{K: "Any"}, op{K: "ToSlice"}, op{K: "Delete", E: 3}, op{K: "Delete", E: 2}, op{K: "Delete", E: 1}, op{K: "Any"}, op{K: "Add", E: 5})
+	// Apply with overlapping added/deleted sets: both report the element (membership unchanged)
+	add([]uint32{}, op{K: "Apply", L: []uint32{1}, D: []uint32{1}}, op{K: "Apply", L: []uint32{2, 3}, D: []uint32{3, 4}})
+	// codec: round trip into a non-empty set, duplicates, short input keeps the decoded prefix
+	add([]uint32{7, ^uint32(0), 256}, op{K: "Encode"}, op{K: "Decode", B: encodeList([]uint32{256, 5, 5, 65536}, 4)}, op{K: "Decode", B: encodeList([]uint32{9, 8}, 3)}, op{K: "Decode", B: []byte{1, 0, 0}}, op{K: "Encode"})
+	add([]uint32{1, 2, 3}, op{K: "Clear"}, op{K: "Any"}, op{K: "Add", E: 2}, op{K: "Equals", L: []uint32{2}}, op{K: "Is", E: 2}, op{K: "Compute", F: "compl", L: []uint32{1, 2, 3}})
+	return
+}
+
+func hist(args []string) {
+	fs := flag.NewFlagSet("hist", flag.ExitOnError)
+	n := fs.Int("n", 400, "")
+	maxLen := fs.Int("len", 30, "")
+	seed := fs.Uint64("seed", 1, "")
+	out := fs.String("out", "cases.v", "")
+	stats := fs.String("stats", "stats.json", "")
+	_ = fs.Parse(args)
+	r := vx.NewRng(*seed)
+	st := vx.NewStats("lockstep histories on universes of 2..6 uint32 elements (small values and byte-boundary values): ds.Set with all interface methods (60%), orderedmap.OrderedMap[uint32,uint32] (25%), ds.SetArithmetic with thresholds {default,1,2,3,0,-1} (15%); every result + contents/order/size after every op; distinct = distinct histories; non-trivial = at least two content-changing ops (sets/maps) or two reported crossings (arith)")
+	cf := &vx.CasesFile{
+		Header: "From Coq Require Import NArith ZArith List.\nFrom Verif.C11_Set Require Import Model Corr.\nImport ListNotations.\nOpen Scope N_scope.\n",
+		Type:   "case",
+		Footer: "Definition M := Eval vm_compute in mismatches cases.\nPrint M.\n",
+	}
+	inits, hs := directedSets()
+	for i := range hs {
+		emitSet(cf, st, inits[i], hs[i], "directed")
+	}
+	emitMap(cf, st, []op{{K: "Set", E: 1, V: 1}, {K: "Set", E: 2, V: 2}, {K: "Set", E: 3, V: 3}, {K: "Set", E: 2, V: 9}, {K: "MDelete", E: 2}, {K: "RevPairs"}, {K: "MDelete", E: 1}, {K: "Head"}, {K: "MDelete", E: 3}, {K: "Tail"}, {K: "Set", E: 2, V: 1}, {K: "Pairs", N: 1}}, "directed")
+	for cf.Len() < *n {
+		rr := r.Fork()
+		u := universe(rr)
+		l := 3 + rr.Intn(*maxLen)
+		k := rr.Intn(100)
+		switch {
+		case k < 60:
+			h := make([]op, l)
+			for i := range h {
+				h[i] = genSetOp(rr, u)
+			}
+			emitSet(cf, st, sub(rr, u), h, "random")
+		case k < 85:
+			h := make([]op, l)
+			for i := range h {
+				h[i] = genMapOp(rr, u)
+			}
+			emitMap(cf, st, h, "random")
+		default:
+			emitArith(cf, st, genArith(rr, 2+l/2), "random")
+		}
+	}
+	if err := cf.Write(*out); err != nil {
+		vx.Die("%v", err)
+	}
+	if err := st.Write(*stats); err != nil {
+		vx.Die("%v", err)
+	}
+}
+
 func main() {
-	d, a := probeD11b(50*time.Millisecond, 2*time.Second)
-	fmt.Println("DeleteAll returned:", d, "Apply returned:", a)
+	if len(os.Args) < 2 {
+		vx.Die("usage: hx-c11 hist|conc [flags] --seed S --out cases.v --stats stats.json")
+	}
+	switch os.Args[1] {
+	case "hist":
+		hist(os.Args[2:])
+	case "conc":
+		conc(os.Args[2:])
+	default:
+		vx.Die("unknown subcommand %s", os.Args[1])
+	}
 }
